@@ -1,52 +1,49 @@
 """T1: bech32 data tables of the working tree -> lean/BtcVerif/Generated/Bech32.lean
 
-CHARSET is module-level data (read by import).  The generator constants are a function-local literal
-inside `bech32_polymod`: they are read from the AST (assignment to the name `generator` inside that
-function).  If the literal cannot be located this raises and the framework reports a broken tie.
+Both tables are read BEHAVIOURALLY from the public functions, so that a refactoring that moves or renames the
+literals (hoisting the generator out of `bech32_polymod`, renaming CHARSET) does not break the tie, while any
+change of a value does:
+
+* generator: `bech32_polymod` is the affine map  s ↦ T(s) xor v  iterated from s = 1, with T linear over GF(2)
+  and T(2^(25+i)) = generator[i].  Feeding [2^i, 0, 0, 0, 0, 0, 0] reaches the state T(GEN[0]) xor GEN[i] and
+  feeding seven zeros reaches T(GEN[0])  (for i = 0: [1,0,…] gives T(GEN[0]) xor GEN[0], and six zeros give GEN[0]
+  directly), hence  GEN[i] = polymod([2^i]+[0]*6) xor polymod([0]*7).
+* charset: character number v is what `bech32_encode` writes for the data value v (first data character).
+
+If a function is missing or does not answer integers/strings of the expected shape this raises and the
+framework reports a broken tie (then searches for a failing input).
 """
-import ast
-import os
 
 
-def _generator(repo):
-    path = os.path.join(repo, 'bitcoin', 'segwit_addr.py')
-    tree = ast.parse(open(path).read())
-    fn = None
-    for n in ast.walk(tree):
-        if isinstance(n, ast.FunctionDef) and n.name == 'bech32_polymod':
-            fn = n
-            break
-    if fn is None:
-        raise LookupError('function bech32_polymod not found in bitcoin/segwit_addr.py')
-    found = []
-    for n in ast.walk(fn):
-        if isinstance(n, ast.Assign) and any(isinstance(t, ast.Name) and t.id == 'generator' for t in n.targets):
-            found.append(n.value)
-        if isinstance(n, ast.AnnAssign) and isinstance(n.target, ast.Name) and n.target.id == 'generator' \
-                and n.value is not None:
-            found.append(n.value)
-    if len(found) != 1:
-        raise LookupError('expected exactly one assignment to `generator` inside bech32_polymod, found %d' % len(found))
-    try:
-        val = ast.literal_eval(found[0])
-    except ValueError as e:
-        raise LookupError('`generator` in bech32_polymod is not a literal: %s' % e)
-    if not isinstance(val, (list, tuple)) or not all(isinstance(x, int) and not isinstance(x, bool) and x >= 0
-                                                     for x in val):
-        raise LookupError('`generator` in bech32_polymod is not a list of non-negative integers')
-    return list(val)
+def _generator(SA):
+    P = SA.bech32_polymod
+    base = P([0] * 7)
+    gen = [P([1 << i] + [0] * 6) ^ base for i in range(5)]
+    if P([0] * 6) != gen[0]:
+        raise LookupError('bech32_polymod is not of the BIP173 shape (six zeros must reach generator[0])')
+    if not all(isinstance(g, int) and not isinstance(g, bool) and 0 <= g < (1 << 30) for g in gen):
+        raise LookupError('bech32_polymod does not produce 30-bit integers')
+    return gen
+
+
+def _charset(SA):
+    out = []
+    for v in range(32):
+        s = SA.bech32_encode('a', [v])
+        if not isinstance(s, str) or len(s) != 2 + 1 + 6 or s[:2] != 'a1':
+            raise LookupError('bech32_encode("a", [%d]) does not have the BIP173 shape: %r' % (v, s))
+        out.append(s[2])
+    return ''.join(out)
 
 
 def dump(repo):
     import bitcoin.segwit_addr as SA
-    cs = SA.CHARSET
-    if not isinstance(cs, str):
-        raise LookupError('bitcoin.segwit_addr.CHARSET is not a str')
-    gen = _generator(repo)
+    cs = _charset(SA)
+    gen = _generator(SA)
     return ('-- GENERATED from the working tree by harness/tables/bech32.py on every run; do not edit.\n'
             'namespace BtcVerif.Generated.Bech32\n\n'
-            '/-- bitcoin.segwit_addr.CHARSET (code points) -/\n'
+            '/-- the character `bech32_encode` writes for each data value 0..31 (code points) -/\n'
             'def charset : List Char := [' + ', '.join('Char.ofNat %d' % ord(c) for c in cs) + ']\n\n'
-            '/-- the literal assigned to `generator` inside bech32_polymod (from the AST) -/\n'
+            '/-- the generator constants, read off `bech32_polymod` by linear algebra (see harness/tables/bech32.py) -/\n'
             'def generator : List Nat := [' + ', '.join(str(g) for g in gen) + ']\n\n'
             'end BtcVerif.Generated.Bech32\n')
